@@ -791,20 +791,6 @@ def plan(ctx):
     return cases
 
 
-def pre_build(ctx):
-    # re-translate the import pipeline (Gen/ImportPipeline_gen.v, tied by Proofs/ImportTie.v)
-    import translate_import
-
-    ok, msg = translate_import.regenerate()
-    if not ok:
-        raise RuntimeError("translator refused the import sources: %s" % msg)
-    import translate_numpy_utils
-
-    ok, msg = translate_numpy_utils.regenerate_relabel()
-    if not ok:
-        raise RuntimeError("translator refused _import_segmentation.py: %s" % msg)
-
-
 def run(ctx):
     it = Intern()
     cases = plan(ctx)
